@@ -332,6 +332,14 @@ impl IndexManager {
                 header_v2.ekey_length
             )));
         }
+        // Entries are parsed with the fixed CASC layout (5-byte storage
+        // offset, 4-byte encoded size), so no other field widths can be read.
+        if header_v2.storage_offset_length != 5 || header_v2.encoded_size_length != 4 {
+            return Err(StorageError::Index(format!(
+                "Unsupported field sizes: storage offset {} (expected 5), encoded size {} (expected 4)",
+                header_v2.storage_offset_length, header_v2.encoded_size_length
+            )));
+        }
 
         // Create legacy header for compatibility
         let header = IndexHeader {
@@ -346,7 +354,10 @@ impl IndexManager {
             segment_bits: header_v2.file_offset_bits,
         };
 
-        let entry_size = (header.key_size + header.location_size + header.length_size) as usize;
+        // Sum in usize: the three widths are u8 values read from the file.
+        let entry_size = usize::from(header.key_size)
+            + usize::from(header.location_size)
+            + usize::from(header.length_size);
         Ok((header, entry_size))
     }
 
